@@ -572,7 +572,7 @@ class Matcher:
             sts.add(id(n))
         return len(sts)
 
-    def all_of(self, patterns, binds: dict | None = None) -> tuple[bool, str]:
+    def all_of(self, patterns, binds: dict | None = None, _depth: int = 0) -> tuple[bool, str]:
         """Every pattern occurs, with one consistent binding of the shared metavariables (backtracking over candidates)."""
         pats = [p if isinstance(p, Pattern) else Pattern(p) for p in patterns]
 
@@ -590,6 +590,28 @@ class Matcher:
             if binds is not None:
                 binds.update(r)
             return True, ""
+        # virtual temporaries: a pattern `$v = E` names an intermediate value.  When the code does not keep that value in a variable of its own
+        # (`return tuple(a), tuple(b)` instead of `x = tuple(a); y = tuple(b); return x, y`) the other patterns are tried with `$v` replaced by `(E)`.
+        if _depth < 6 and all(isinstance(p, str) or isinstance(p, Pattern) for p in patterns):
+            srcs = [p.src if isinstance(p, Pattern) else p for p in patterns]
+            for i, ps in enumerate(srcs):
+                m = re.match(r"^\$([A-Za-z_][A-Za-z_0-9]*)\s*=\s*(?!=)(.+)$", ps, re.S)
+                if not m or "\n" in ps:
+                    continue
+                v, e = m.group(1), m.group(2).strip()
+                if (binds or {}).get(v) is not None or re.search(r"(?<!\$)\$" + v + r"\b", e):
+                    continue
+                if self.find(pats[i], dict(binds or {})):
+                    continue  # the temporary exists as written: the failure lies elsewhere
+                others = [re.sub(r"(?<!\$)\$" + v + r"\b", "(" + e.replace("\\", "\\\\") + ")", q) for j, q in enumerate(srcs) if j != i]
+                if others == [q for j, q in enumerate(srcs) if j != i]:
+                    continue  # nobody uses it
+                try:
+                    ok2, why2 = self.all_of(others, binds, _depth=_depth + 1)
+                except (SyntaxError, ValueError):
+                    continue
+                if ok2:
+                    return True, ""
         # diagnose: first pattern that cannot be matched on its own / consistently
         b = dict(binds or {})
         for p in pats:
